@@ -171,6 +171,10 @@ func buildCases(st map[string]int) []Case {
 	}
 	for _, proto := range []string{"http", "grpc"} {
 		cases = append(cases, Case{Endpoint: "reqid:" + proto, Kind: "CreateSubscription", Mode: "reqid", Status: 20100, Producible: true})
+		cases = append(cases, Case{Endpoint: "reqid:" + proto + ":lock", Kind: "AcquireLock", Mode: "reqid", Status: 20100, Producible: true})
+	}
+	for _, k := range []string{"SearchPromises", "SearchSchedules"} {
+		cases = append(cases, Case{Endpoint: "cursor:" + k, Kind: k, Mode: "cursor", Status: 0, Producible: true})
 	}
 	// request translation: every kind, several generated contents
 	for i := 0; i < 40; i++ {
@@ -246,8 +250,17 @@ func main() {
 	start := time.Now()
 	var mine []Case
 	for i, c := range cases {
-		if *prop == "C05" && c.Mode != "reqid" {
+		if *prop == "C05" && !(c.Mode == "reqid" && c.Kind == "CreateSubscription") {
 			continue // C05 uses the front ends only for what they do to overlapping registrations
+		}
+		if *prop == "C09" && !(c.Mode == "reqid" && c.Kind == "AcquireLock") {
+			continue // C09: ... and to overlapping acquire requests of different executions
+		}
+		if *prop == "C10" && !(c.Mode == "translate" && c.Kind == "CreateSchedule") {
+			continue // C10: what the front ends make of a schedule creation (its idempotency key above all)
+		}
+		if *prop == "C14" && !(c.Mode == "cursor" || (c.Mode == "translate" && (c.Kind == "SearchPromises" || c.Kind == "SearchSchedules"))) {
+			continue // C14: the query the kernel is asked is the query the client sent
 		}
 		if *prop == "C12" && !c.Slow {
 			continue // C12: a reply later than the configured timeout is still a reply
